@@ -667,6 +667,10 @@ func (t *tools) runBatchX(progs []*Program, opts batchOpts, reducing bool) (*bat
 		res.fail = f
 		return res, b
 	}
+	if f := directivesKept(b); f != nil {
+		res.fail = f
+		return res, b
+	}
 	if f := t.buildPkgs(b); f != nil {
 		res.fail = f
 		return res, b
@@ -757,6 +761,46 @@ func sideEffectImportsKept(b *batch) *stageFailure {
 		for _, path := range sortedKeys(got) {
 			if !want[path] {
 				return &stageFailure{Stage: "build-o", Diag: fmt.Sprintf("o/%s: the generated file imports _ %s for its side effects, the source file does not", fn, path)}
+			}
+		}
+	}
+	return nil
+}
+
+var reDirective = regexp.MustCompile(`(?m)^\s*//(go:[a-z]+|export)( .*)?$`)
+
+// directivesKept: compiler directives (//go:embed, //go:noinline, //go:linkname, //go:debug, //export ...) are comments with a
+// meaning. Every directive line of a source file must be present in the generated file (//go:build and //go:generate excepted:
+// the tool replaces the constraint, and a generate line is only a comment for the build). Reported like a build failure of the output.
+func directivesKept(b *batch) *stageFailure {
+	collect := func(path string) (map[string]int, bool) {
+		src, err := os.ReadFile(path)
+		if err != nil {
+			return nil, false
+		}
+		m := map[string]int{}
+		for _, l := range reDirective.FindAllString(string(src), -1) {
+			l = strings.TrimSpace(l)
+			if strings.HasPrefix(l, "//go:build") || strings.HasPrefix(l, "//go:generate") {
+				continue
+			}
+			m[l]++
+		}
+		return m, true
+	}
+	for _, fn := range []string{"p.go", "q.go", "r.go", "t.go", "p_test.go", "zgv.go"} {
+		want, ok := collect(filepath.Join(b.dir, "s", fn))
+		if !ok {
+			continue
+		}
+		got, ok := collect(filepath.Join(b.dir, "o", fn))
+		if !ok {
+			continue
+		}
+		for _, d := range sortedKeys(want) {
+			// (the attached source of a generator is a comment that may repeat a directive: more is fine, fewer is not)
+			if got[d] < want[d] {
+				return &stageFailure{Stage: "build-o", Diag: fmt.Sprintf("o/%s: the directive %q of the source file is missing in the generated file", fn, d)}
 			}
 		}
 	}
